@@ -294,19 +294,24 @@ func (x *c20Bar) Inherit(s *supervisor.Spec, prev supervisor.Object) {
 }
 func (x *c20Bar) Close() {}
 
-type c20BarG struct{}
+// The traffic-side barrier is TRANSIENT: it is created in one snapshot and removed in the
+// next, so that it never keeps the namespace (or its set of traffic gates) non-empty on
+// behalf of the case under test.
+type c20BarG struct{ v int }
 
 func (x *c20BarG) Category() supervisor.ObjectCategory { return supervisor.CategoryTrafficGate }
 func (x *c20BarG) Kind() string                        { return "C20BarG" }
 func (x *c20BarG) DefaultSpec() interface{}            { return &c20Spec{} }
 func (x *c20BarG) Status() *supervisor.Status          { return c20Status() }
 func (x *c20BarG) Init(s *supervisor.Spec, m context.MuxMapper) {
-	c20.bar <- s.ObjectSpec().(*c20Spec).V
+	x.v = s.ObjectSpec().(*c20Spec).V
+	c20.bar <- x.v
 }
 func (x *c20BarG) Inherit(s *supervisor.Spec, prev supervisor.Object, m context.MuxMapper) {
-	c20.bar <- s.ObjectSpec().(*c20Spec).V
+	x.v = s.ObjectSpec().(*c20Spec).V
+	c20.bar <- x.v
 }
-func (x *c20BarG) Close() {}
+func (x *c20BarG) Close() { c20.bar <- x.v }
 
 var c20Once sync.Once
 
@@ -415,24 +420,29 @@ func c20Run(t *testing.T, in c20In) (obs c20Obs) {
 		sy.MockedSyncPrefix = func(string) (<-chan map[string]string, error) { return ch, nil }
 		return sy, nil
 	}
-	c20.bar = make(chan int, 8)
+	c20.bar = make(chan int, 16)
 	barV := 0
 	prefix := (&cluster.Layout{}).ConfigObjectPrefix()
-	push := func(step [][3]int, flip bool) {
-		if flip {
-			barV++
-		}
+	push := func(step [][3]int, gateBar bool) {
 		kv := map[string]string{}
 		for _, e := range step {
 			n := fmt.Sprintf("n%d", e[0])
 			kv[prefix+n] = c20Yaml(n, e[1], e[2])
 		}
 		kv[prefix+"zzbar"] = fmt.Sprintf("name: zzbar\nkind: C20Bar\nv: %d\n", barV)
-		kv[prefix+"zzbarg"] = fmt.Sprintf("name: zzbarg\nkind: C20BarG\nv: %d\n", barV)
+		if gateBar {
+			kv[prefix+"zzbarg"] = fmt.Sprintf("name: zzbarg\nkind: C20BarG\nv: %d\n", barV)
+		}
 		ch <- kv
 	}
-	wait := func() bool {
-		for got := 0; got < 2; {
+	// sync: the business barrier changes content (Init/Inherit signals), the traffic barrier
+	// appears (Init signals) and disappears again (Close signals): three signals carrying barV
+	// mean both consumers have handled every earlier snapshot.
+	sync3 := func(step [][3]int) bool {
+		barV++
+		push(step, true)
+		push(step, false)
+		for got := 0; got < 3; {
 			select {
 			case v := <-c20.bar:
 				if v == barV {
@@ -446,8 +456,7 @@ func c20Run(t *testing.T, in c20In) (obs c20Obs) {
 	}
 	super := supervisor.MustNew(&option.Options{AbsHomeDir: t.TempDir()}, cls)
 	tc := super.MustGetSystemController(trafficcontroller.Kind).Instance().(*trafficcontroller.TrafficController)
-	push(nil, false)
-	if !wait() {
+	if !sync3(nil) {
 		t.Fatalf("c20: barriers never initialised")
 	}
 	c20.mu.Lock()
@@ -465,8 +474,7 @@ func c20Run(t *testing.T, in c20In) (obs c20Obs) {
 		c20.step = ti
 		c20.mu.Unlock()
 		push(step, false)
-		push(step, true)
-		if !wait() {
+		if !sync3(step) {
 			obs.Crash = ti
 			break
 		}
@@ -487,6 +495,12 @@ func c20Run(t *testing.T, in c20In) (obs c20Obs) {
 
 func c20PickKind(r *vfRand) int {
 	return []int{0, 1, 0, 1, 2, 3, 2, 3, 4, 9, 9}[r.Intn(11)]
+}
+
+// traffic objects only: gates and real pipelines sharing the one namespace, so that the last
+// gate goes while pipelines stay, the last pipeline goes while gates stay, one of several goes...
+func c20PickTraffic(r *vfRand) int {
+	return []int{2, 3, 9, 9, 9, 4}[r.Intn(6)]
 }
 
 func c20OtherKindSameCat(r *vfRand, k int) int {
@@ -514,6 +528,13 @@ func c20Gen(r *vfRand, adv bool, tier string) c20In {
 	if adv {
 		kindChange = 5
 	}
+	pick := c20PickKind
+	if r.Chance(2, 5) {
+		pick = c20PickTraffic
+		if in.Names < 3 {
+			in.Names = r.Range(3, 4)
+		}
+	}
 	type cur struct{ kind, v int }
 	live := map[int]*cur{}
 	hist := []map[int]int{} // per step: name -> kind
@@ -525,7 +546,7 @@ func c20Gen(r *vfRand, adv bool, tier string) c20In {
 			switch {
 			case c == nil:
 				if x < 11 {
-					live[n] = &cur{c20PickKind(r), r.Range(1, 3)}
+					live[n] = &cur{pick(r), r.Range(1, 3)}
 				}
 			case x < 6:
 			case x < 11:
@@ -539,7 +560,7 @@ func c20Gen(r *vfRand, adv bool, tier string) c20In {
 				if r.Chance(1, 2) {
 					c.kind = c20OtherKindSameCat(r, c.kind)
 				} else {
-					c.kind = c20PickKind(r)
+					c.kind = pick(r)
 				}
 				if r.Bool() {
 					c.v = r.Range(1, 3)
